@@ -398,6 +398,10 @@ def gen_scenario(rng, ops=None, force=None):
         dtype = force["dtype"]
         if not dtype.startswith("float") and params.get("nan_cells"):
             params["nan_cells"] = False
+    if op == "iteragg":
+        # float reductions must stay exact (integer-valued data): summation order legitimately
+        # differs between numpy and dask, and only exact sums make bit-identity a fair oracle
+        kind = "smallint" if dtype.startswith("float") else "precip"
     if "layout" in force:
         layout = list(force["layout"])
     for k, v in (force.get("like") or {}).items():
@@ -430,7 +434,10 @@ def gen_scenario(rng, ops=None, force=None):
             sprinkle_nodata(rng, nprng, data, nodata, pattern)
     else:
         sprinkle_nodata(rng, nprng, data, nodata, pattern)
-        if op in ("whits", "whitswcv") and dtype.startswith("float") and rng.random() < 0.25:
+        # NaN cells only for whits: the GCV kernels *raise* on NaN input (unassigned best-fit), and an
+        # exception inside a gufunc loop combined with pending FP flags surfaces through numpy's
+        # warning machinery in a process-history-dependent way -- not a C12 matter, see DESIGN 9.4
+        if op == "whits" and dtype.startswith("float") and rng.random() < 0.25:
             data[nprng.random(data.shape) < 0.05] = np.nan
 
     # degenerate pixels (early-exit branches of the kernels): all zero, constant, mostly zero, one spike
@@ -453,6 +460,13 @@ def gen_scenario(rng, ops=None, force=None):
                 data[:, py, px] = 0
                 data[rng.randrange(T), py, px] = 1000 if np.dtype(dtype).itemsize > 1 else 1
         pattern = pattern + "+special"
+    # whole time steps without any valid observation (a block that holds only such steps must
+    # behave like the same steps inside a larger block)
+    if op not in ("dekad", "lroo", "croo") and rng.random() < 0.25:
+        fill = np.nan if (op == "autocorr" and params.get("float")) or (params.get("nan_cells") and rng.random() < 0.5) else nodata
+        for _ in range(rng.randint(1, 2)):
+            data[rng.randrange(T), :, :] = fill
+        pattern = pattern + "+empty-step"
     tstart = rng.randrange(0, 72)
     chunks = {"y": composition(rng, Y), "x": composition(rng, X)}
     scn = {
